@@ -418,8 +418,10 @@ class H2Server(TimerMixin, Peer):
                     last = hi + 2
                 else:
                     last = int(mode)
-                # a server never disowns a request it has already processed
-                last = max(last, self.max_processed)
+                # a server never disowns a request it has already processed (unless the
+                # plan asks for exactly that misbehaviour: C15)
+                if not ev.get("disown"):
+                    last = max(last, self.max_processed)
                 self.goaway_sent = True
                 self.goaway_last = last
                 # graceful shutdown: the GOAWAY frame is written by hand so that h2's
